@@ -268,6 +268,7 @@ struct MachineT : Machine {
 
     void cmd(const std::string& c, Toks& t) override {
         if (c == "sol.consts") { /* literals live in the C++ source */ }
+        else if (c == "sol.check") { /* property predicates are evaluated by the Lean driver on the (compared) results */ }
         else if (c == "sol.settings") { parse_settings(t, solver.settings()); std::cout << "ok\n"; }
         else if (c == "sol.setup") {
             Args a = parse_args(t);
@@ -296,7 +297,7 @@ struct MachineT : Machine {
         else if (c == "sol.sqrtmode") { Q::sqrt_mode() = (int) std::stol(t.next()); }
         else if (c == "sol.dump") dump();
         else throw std::runtime_error("unknown sol command " + c);
-        std::cout << "#ev " << Q::ev().poison_arith << " " << Q::ev().poison_cmp << " " << Q::ev().div0 << " " << Q::ev().inf_arith << " " << Q::ev().sqrt_bad << "\n";
+        std::cout << "#ev " << Q::ev().poison_arith << " " << Q::ev().poison_cmp << " " << Q::ev().div0 << " " << Q::ev().inf_arith << " " << Q::ev().sqrt_bad << " " << Q::ev().uninit_arith << " " << Q::ev().uninit_cmp << "\n";
     }
 };
 
@@ -360,6 +361,7 @@ int main() {
         } catch (const std::exception& e) {
             std::cout << "error " << e.what() << "\n";
         }
+        std::cout.flush();
     }
     return 0;
 }
